@@ -71,6 +71,7 @@ type loopSnap struct {
 	allocBase string
 	mods []modEntry
 	callLogLen int // length of the call log when the loop head was (last) entered on this path
+	src map[string]Val // source-level variables at the start of the iteration (for prev(...) in bodyensures)
 }
 
 type State struct {
@@ -797,20 +798,30 @@ func (c *Ctx) loadAt(s *State, heap map[string]string, p Val, t types.Type) Val 
 		}
 		return ""
 	}
+	// the container the value is read from: what a heap version holds at a location is older than the version only if the
+	// location itself existed when the version was created (a callee that returns a fresh object without listing any
+	// heap as modified leaves the caller reading that object's fields from an older version: nothing is known of them)
+	container := ""
+	switch x := p.(type) {
+	case LocV:
+		container = x.Base
+	case Scalar:
+		container = x.T
+	}
 	var v Val
 	switch t.Underlying().(type) {
 	case *types.Slice:
 		sv := SliceV{rd(cs[0]), rd(cs[1]), rd(cs[2]), rd(cs[3]), t}
-		c.allocatedFactB(s, sv.Arr, c.heapBound(s, heap, hname(cs[0])))
+		c.allocatedFactIn(s, sv.Arr, c.heapBound(s, heap, hname(cs[0])), container)
 		v = sv
 	case *types.Interface:
 		iv := IfaceV{rd(cs[0]), rd(cs[1]), rd(cs[2]), t}
-		c.allocatedFactB(s, iv.PRef, c.heapBound(s, heap, hname(cs[1])))
+		c.allocatedFactIn(s, iv.PRef, c.heapBound(s, heap, hname(cs[1])), container)
 		v = iv
 	default:
 		sc := Scalar{rd(cs[0]), cs[0].S, t}
 		if sc.S == SRef {
-			c.allocatedFactB(s, sc.T, c.heapBound(s, heap, hname(cs[0])))
+			c.allocatedFactIn(s, sc.T, c.heapBound(s, heap, hname(cs[0])), container)
 		}
 		v = sc
 	}
@@ -1006,6 +1017,26 @@ func (c *Ctx) allocatedFact(s *State, ref string) {
 		return
 	}
 	c.allocatedFactB(s, ref, c.allocTerm(s))
+}
+
+// allocatedFactIn: ref was read from a location inside container out of a heap version created at allocation point bound.
+func (c *Ctx) allocatedFactIn(s *State, ref, bound, container string) {
+	if container == "" || strings.Contains(container, "!q") {
+		c.allocatedFactB(s, ref, bound)
+		return
+	}
+	if s == nil || ref == "rnil" || strings.Contains(ref, "!q") {
+		return
+	}
+	if s.refFacts == nil {
+		s.refFacts = map[string]bool{}
+	}
+	key := ref + "<" + bound + "@" + container
+	if s.refFacts[key] {
+		return
+	}
+	s.refFacts[key] = true
+	c.assume(s, fmt.Sprintf("(=> (< (rootid %s) %s) (< (rootid %s) %s))", container, bound, ref, bound))
 }
 
 func (c *Ctx) allocatedFactB(s *State, ref, bound string) {
